@@ -255,7 +255,17 @@ func TestVerifC03(t *testing.T) {
 		}
 	}
 
-	// ---------------- (4) absent CIDs colliding in cid-to-offset-and-size
+	// ---------------- (4) absent CIDs colliding in cid-to-offset-and-size (CAR read locally and through the remote ReaderAt)
+	srv := vfServeDir(fx.Dir)
+	defer srv.Close()
+	var epRemote *Epoch
+	if err := fx.writeConfig(srv.URL, nil); err == nil {
+		epRemote, err = fx.vfLoad(vfNewCache())
+		if err != nil {
+			t.Fatalf("remote load: %v", err)
+		}
+		defer epRemote.Close()
+	}
 	wantCids := ev.Pick(20, 200)
 	nc := 0
 	tries = 0
@@ -280,6 +290,12 @@ func TestVerifC03(t *testing.T) {
 		data, err := ep.GetNodeByCid(ctx, c)
 		if err == nil {
 			rec.Violation("Epoch.GetNodeByCid/absent-cid-answered-with-bytes", fmt.Sprintf("cid %s is not in the CAR but %d bytes were returned", c, len(data)), c03Witness{Seed: seed, Fixture: "main", Cid: c.String(), Surface: "Epoch.GetNodeByCid", Loaded: 1})
+		}
+		if epRemote != nil {
+			rec.Eval(1)
+			if data, err := epRemote.GetNodeByCid(ctx, c); err == nil {
+				rec.Violation("Epoch.GetNodeByCid/absent-cid-answered-with-bytes-remote-car", fmt.Sprintf("cid %s is not in the CAR but %d bytes were returned (remote CAR reader)", c, len(data)), c03Witness{Seed: seed, Fixture: "main", Cid: c.String(), Surface: "Epoch.GetNodeByCid(remote)", Loaded: 1})
+			}
 		}
 		rec.Distinct("cid-to-offset/" + c.String())
 	}
